@@ -10,7 +10,8 @@ CONSTANTS Mode,       \* "prefix" | "filter" | "router" | "fanout" | "stack"
           NameAlpha,  \* code points for metric names
           MaxName, MaxPat, MaxPats, MaxRoutes, MaxDepth,
           MaskSet, KindSet, DfaSet,
-          PerOp       \* "both": describe and register for every (name, kind); "alt": one of them, alternating
+          PerOp,      \* "both": describe and register for every (name, kind); "alt": one of them, alternating
+          MaxBuilders, AllowOnto, BWide     \* "builder" mode: builders per history, layer() onto earlier products, wider choices
 
 Strs(A, n) == SeqOf(A, n)
 Probe(i) == [t |-> "probe", id |-> i]
@@ -62,6 +63,24 @@ MCConfigs == CASE Mode = "prefix" -> PrefixConfigs
                [] Mode = "router" -> RouterConfigs
                [] Mode = "fanout" -> FanoutConfigs
                [] Mode = "stack"  -> StackConfigs
+               [] Mode = "builder" -> {}
+
+(* ---- "builder": every history of at most MaxHist calls on FilterLayer / PrefixLayer values ---- *)
+Call(c, b, p, pats, x, onto) == [c |-> c, b |-> b, p |-> p, pats |-> pats, x |-> x, onto |-> onto]
+BNewPats == IF BWide THEN {<<>>, << <<cA>> >>, << <<cBB>>, <<cA, Dot>> >>} ELSE {<<>>, << <<cA>> >>}
+BAddPats == IF BWide THEN {<<65>>, <<cB>>} ELSE {<<65>>}
+NewCalls == {Call("new_filter", 0, <<>>, ps, FALSE, 0) : ps \in BNewPats}
+            \cup {Call("new_default", 0, <<>>, <<>>, FALSE, 0), Call("new_prefix", 0, <<cA>>, <<>>, FALSE, 0)}
+MCBuilderCalls(bs, md) ==
+  IF Mode # "builder" THEN {}
+  ELSE (IF Len(bs) < MaxBuilders THEN NewCalls ELSE {})
+       \cup UNION {
+            {Call("layer", b, <<>>, <<>>, FALSE, o) : o \in {0} \cup (IF AllowOnto THEN DOMAIN md ELSE {})}
+            \cup (IF bs[b].t = "filter"
+                  THEN {Call("add", b, p, <<>>, FALSE, 0) : p \in BAddPats}
+                       \cup {Call("ci", b, <<>>, <<>>, x, 0) : x \in BOOLEAN}
+                       \cup {Call("dfa", b, <<>>, <<>>, x, 0) : x \in DfaSet}
+                  ELSE {}) : b \in DOMAIN bs}
 
 (* ---- operations ---- *)
 DescribeOp(k, n, unit, desc) == [o |-> "describe", kind |-> k, name |-> n, unit |-> unit, desc |-> desc]
@@ -98,7 +117,8 @@ Program(c) ==
       withUpd == FlattenSeq([i \in DOMAIN regsq |->
                     <<regsq[i], [o |-> "update", h |-> i, u |-> updOf(i).u, v |-> updOf(i).v, n |-> updOf(i).n]>>])
   IN [cfg |-> c, ops |-> withUpd \o descs]
-ExportNext == \E c \in Configs : Configure(c)
+HistProgram == [hist |-> hist, ops |-> SetToSeq(AllOps)]
+ExportNext == DoConfigure \/ DoBuild \/ DoAssemble
 ExportSpec == Init /\ [][ExportNext]_vars
-Emit == cfg.t # "none" => PrintT(<<"REPLAY", ToJson(Program(cfg))>>)
+Emit == cfg.t # "none" => PrintT(<<"REPLAY", ToJson(IF hist = <<>> THEN Program(cfg) ELSE HistProgram)>>)
 =============================================================================
